@@ -1,4 +1,4 @@
-import SlugModel.Lemmas.TransEq
+import SlugModel.Lemmas.TrEq_excludes
 /-!
 # C03 (tie by translation)
 
